@@ -17,6 +17,7 @@ class C17(Prop):
         "NV.C17.never_stale",
         "NV.C17.never_stale_transitive",
         "NV.C17.fresh_binary_used",
+        "NV.C17.include_resolution_partial",
         "NV.C17.saved_only_against_current_parents",
         "NV.C17.current_parents_are_saved",
         "NV.C17.swap_loop_correct",
@@ -52,6 +53,7 @@ class C17(Prop):
         "NV.C17.old_indirect_inherit_not_checked",
         "NV.C17.conditional_patch_list_misses_switch",
         "NV.C17.old_saved_against_outdated_parent",
+        "NV.C17.include_shadowing_not_seen",
     ]
     consts = [("switchCaseSize", "SWITCH_CASE_SIZE"), ("fSwitch", "F_SWITCH"), ("nameInherited", "NAME_INHERITED"),
               ("indexStartNone", "INDEX_START_NONE"), ("sizeofProgram", "sizeof(program_t)"),
